@@ -241,6 +241,17 @@ def run(ctx, n_override=None):
         # the model where one exists: the finalize model on the untouched transaction journals
         if xs is not None and j % 3 == 0:
             X.compare_journal(ctx, res, 'C19', j, xs, None)
+    # directed: every kind of optional field (posting dates of each form, notes, tags, codes, states, repeated UUIDs) under the
+    # writers that show them - an optional that is read although empty shows as a difference between the unperturbed run and
+    # the MALLOC_PERTURB_ ones
+    for k_ in range(ctx.scale(12, 60)):
+        base = X.render_journal(c02.gen_null_xact(rng) and [c02.gen_null_xact(rng) for _ in range(rng.randrange(3, 9))])
+        text = decorate(rng, decorate(rng, base))
+        cmd = list(rng.choice([['xml'], ['xml', '--aux-date'], ['csv'], ['emacs'], ['print'], ['reg', '--aux-date'], ['xml', '--lots']]))
+        first = run_case(ctx, res, 'fields', text, cmd, nlay)
+        res.count('kind:fields')
+        if first and (first[1] or first[2]):
+            res.nontrivial.add(hashlib.sha256(text.encode('utf-8', 'surrogateescape') + ' '.join(cmd).encode()).hexdigest())
     # value expressions through the REPL under the same layouts
     c03 = importlib.import_module('props.c03')
     trees = [c03.gen_tree(rng, rng.choice([2, 3, 4]), rng.sample(c03.SYMS, 2), False) for _ in range(40)]
